@@ -213,7 +213,7 @@ def gen_sched(g):
             lines = model.split_lines(files[n])
             for (li, ch) in ident_positions(lines, per_file, rng):
                 m = rng.choice(gen.POSITIONAL_METHODS)
-                ops.append(gen.positional(rid(), m, p, li, ch))
+                ops.append(gen.positional(rid(), m, p, li, ch, rng=rng))
         ops.append(gen.req(rid(), "workspace/symbol", {"query": ""}))
         ops.append(gen.req(rid(), "workspace/symbol", {"query": tag}))
 
